@@ -264,8 +264,9 @@ def core_cfg_line(cfg):
 class Master:
     """A native-port master that keeps the contract of C01: holds each command until accepted, offers the data of a write
     with the command (FIFO of write words, head presented with valid), always accepts read data."""
-    def __init__(self, rnd, aw, dw, pattern):
+    def __init__(self, rnd, aw, dw, pattern, geom=None):
         self.rnd = rnd; self.aw = aw; self.dw = dw; self.pattern = pattern
+        self.geom = geom             # (split, bankbits, rowbits) when the mapping is the plain ROW_BANK_COL one (adversarial streams)
         self.cmd = None              # (we, addr, data, mask)
         self.wq = []                 # write words not yet taken: (data, we)
         self.spurious_wdata_strobes = 0
@@ -278,6 +279,13 @@ class Master:
         self.len = r.randrange(40, 150)
         self.hot = [r.getrandbits(self.aw) for _ in range(r.choice([1, 2, 4, 16]))]
         self.seq = r.getrandbits(self.aw)
+        # adversarial stream: back-to-back commands to one bank with the row changing every command (or the same row),
+        # one direction: what starves refresh / other banks / the other direction if a fairness mechanism is broken
+        self.stream = None
+        if self.geom and r.random() < 0.3:
+            split, bankbits, rowbits = self.geom
+            self.stream = dict(bank=r.randrange(1 << bankbits), rows=r.sample(range(1 << rowbits), r.choice([1, 2, 3])), k=0)
+            self.p_new = 1.0; self.p_we = r.choice([0.0, 1.0, 0.5]); self.len = r.randrange(150, 400)
 
     def next(self, cmd_ready, wdata_ready):
         r = self.rnd
@@ -296,7 +304,11 @@ class Master:
         if self.cmd is None and r.random() < self.p_new:
             we = int(r.random() < self.p_we)
             k = r.random()
-            if k < 0.5:
+            if self.stream is not None:
+                split, bankbits, rowbits = self.geom
+                st = self.stream; st["k"] += 1
+                addr = r.randrange(1 << split) | (st["bank"] << split) | (st["rows"][st["k"] % len(st["rows"])] << (split + bankbits))
+            elif k < 0.5:
                 addr = r.choice(self.hot)
             elif k < 0.8:
                 self.seq = (self.seq + 1) % (1 << self.aw); addr = self.seq
@@ -322,7 +334,8 @@ def cosim_core(cfg, seed, ncycles):
     ports = dut.ports
     nm = len(ports)
     aw = len(ports[0].cmd.addr); dw = len(ports[0].wdata.data)
-    masters = [Master(random.Random("%s-m%d" % (seed, i)), aw, dw, None) for i in range(nm)]
+    geom = (cfg["colbits"] - cfg["align"], cfg["bankbits"], cfg["rowbits"]) if not cfg.get("bba") else None
+    masters = [Master(random.Random("%s-m%d" % (seed, i)), aw, dw, None, geom) for i in range(nm)]
     lines = [core_cfg_line(cfg), " ".join(["0 0 0 0 0"] * nm)]
     obs = []; events = []; offered = []
 
